@@ -1,5 +1,391 @@
-(** placeholder, being written *)
-Require Import List Arith Bool ZArith Lia.
+(** * ApiSpecLaws: laws of the sequential API specifications [LV.Spec.ApiSpec] (property C20).
+
+    Every law holds for ALL configurations, states and operation sequences (induction over the sequence /
+    case analysis of the step function); nothing here is a computation over samples.  Plain stdlib + lia. *)
+
+Require Import List Arith Bool ZArith Lia Permutation.
 Require Import LV.Base.Lin LV.Spec.Specs LV.Spec.ApiSpec.
-Lemma api_placeholder : kstate (mkcfg true false false DNone) nil = nil.
-Proof. reflexivity. Qed.
+Import ListNotations.
+Local Open Scope Z_scope.
+
+(** ** The association list of Specs: mfind / mdel / mhas *)
+
+Lemma mhas_true : forall k s, mhas k s = true <-> exists v, mfind k s = Some v.
+Proof. intros k s; unfold mhas; destruct (mfind k s); split; intros H; eauto; try discriminate; destruct H; discriminate. Qed.
+
+Lemma mhas_false : forall k s, mhas k s = false <-> mfind k s = None.
+Proof. intros k s; unfold mhas; destruct (mfind k s); split; intros H; auto; discriminate. Qed.
+
+Lemma mfind_mdel_eq : forall k s, mfind k (mdel k s) = None.
+Proof.
+  intros k s; induction s as [|[k' v] s IH]; simpl; auto.
+  destruct (Z.eqb k k') eqn:E; simpl; auto. now rewrite E.
+Qed.
+
+Lemma mfind_mdel_neq : forall k k' s, k' <> k -> mfind k' (mdel k s) = mfind k' s.
+Proof.
+  intros k k' s Hne; induction s as [|[k1 v] s IH]; simpl; auto.
+  destruct (Z.eqb k k1) eqn:E; simpl.
+  - apply Z.eqb_eq in E; subst k1. destruct (Z.eqb k' k) eqn:E'; auto. apply Z.eqb_eq in E'; congruence.
+  - now rewrite IH.
+Qed.
+
+Lemma mfind_keys : forall k s, mfind k s <> None <-> In k (keys s).
+Proof.
+  intros k s; induction s as [|[k' v] s IH]; simpl.
+  - split; [congruence | tauto].
+  - destruct (Z.eqb k k') eqn:E.
+    + apply Z.eqb_eq in E; subst. split; [auto | congruence].
+    + apply Z.eqb_neq in E. rewrite IH. split; [tauto | intros [H|H]; [congruence | auto]].
+Qed.
+
+Lemma mfind_none_keys : forall k s, mfind k s = None <-> ~ In k (keys s).
+Proof.
+  intros k s; rewrite <- mfind_keys. destruct (mfind k s); split; intros H; try congruence;
+    try (exfalso; apply H; congruence); try (intros H'; congruence).
+Qed.
+
+Lemma mfind_In : forall k s v, mfind k s = Some v -> In (k, v) s.
+Proof.
+  intros k s v; induction s as [|[k' v'] s IH]; simpl; [discriminate|].
+  destruct (Z.eqb k k') eqn:E; intros H.
+  - apply Z.eqb_eq in E; inversion H; subst; auto.
+  - auto.
+Qed.
+
+Lemma keys_mdel : forall k s, keys (mdel k s) = filter (fun x => negb (Z.eqb k x)) (keys s).
+Proof.
+  intros k s; induction s as [|[k' v] s IH]; simpl; auto.
+  destruct (Z.eqb k k'); simpl; now rewrite IH.
+Qed.
+
+Lemma NoDup_filter : forall (A : Type) (f : A -> bool) l, NoDup l -> NoDup (filter f l).
+Proof.
+  intros A f l H; induction H as [|x l Hx H IH]; simpl; [constructor|].
+  destruct (f x); auto. constructor; auto. rewrite filter_In; tauto.
+Qed.
+
+Lemma NoDup_mdel : forall k s, NoDup (keys s) -> NoDup (keys (mdel k s)).
+Proof. intros; rewrite keys_mdel; now apply NoDup_filter. Qed.
+
+Lemma not_in_keys_mdel : forall k s, ~ In k (keys (mdel k s)).
+Proof. intros k s; rewrite <- mfind_keys, mfind_mdel_eq; tauto. Qed.
+
+Lemma mdel_absent : forall k s, mfind k s = None -> mdel k s = s.
+Proof.
+  intros k s; induction s as [|[k' v] s IH]; simpl; auto.
+  destruct (Z.eqb k k') eqn:E; [discriminate|]. intros H; simpl; now rewrite IH.
+Qed.
+
+Lemma length_mdel : forall k s, NoDup (keys s) -> mfind k s <> None -> S (length (mdel k s)) = length s.
+Proof.
+  intros k s; induction s as [|[k' v] s IH]; simpl; [congruence|].
+  intros Hnd Hf; inversion Hnd as [|? ? Hnin Hnd']; subst.
+  destruct (Z.eqb k k') eqn:E; simpl.
+  - apply Z.eqb_eq in E; subst k'. f_equal. rewrite mdel_absent; auto. now apply mfind_none_keys.
+  - f_equal. apply IH; auto.
+Qed.
+
+(** ** zmin / zmax *)
+
+Lemma zmin_spec : forall l x, (zmin x l = x \/ In (zmin x l) l) /\ zmin x l <= x /\ (forall y, In y l -> zmin x l <= y).
+Proof.
+  unfold zmin; induction l as [|a l IH]; intros x; simpl.
+  - split; [auto|]. split; [lia | tauto].
+  - destruct (IH (Z.min x a)) as (H1 & H2 & H3). split; [|split].
+    + destruct H1 as [H1|H1]; [|auto]. rewrite H1. destruct (Z.min_spec x a) as [[_ ->]|[_ ->]]; auto.
+    + lia.
+    + intros y [->|Hy]; [lia | auto].
+Qed.
+
+Lemma zmax_spec : forall l x, (zmax x l = x \/ In (zmax x l) l) /\ x <= zmax x l /\ (forall y, In y l -> y <= zmax x l).
+Proof.
+  unfold zmax; induction l as [|a l IH]; intros x; simpl.
+  - split; [auto|]. split; [lia | tauto].
+  - destruct (IH (Z.max x a)) as (H1 & H2 & H3). split; [|split].
+    + destruct H1 as [H1|H1]; [|auto]. rewrite H1. destruct (Z.max_spec x a) as [[_ ->]|[_ ->]]; auto.
+    + lia.
+    + intros y [->|Hy]; [lia | auto].
+Qed.
+
+Lemma kmin_some : forall s k v, kmin s = Some (k, v) ->
+  mfind k s = Some v /\ forall k', In k' (keys s) -> k <= k'.
+Proof.
+  intros [|[k0 v0] l] k v; simpl; [discriminate|].
+  destruct (zmin_spec (keys l) k0) as (H1 & H2 & H3).
+  set (m := zmin k0 (keys l)) in *.
+  destruct (Z.eqb m k0) eqn:E.
+  - intros H; inversion H; subst. apply Z.eqb_eq in E. rewrite <- E at 1. rewrite Z.eqb_refl. split; auto.
+    intros k' [<-|Hk]; [lia | auto].
+  - destruct (mfind m l) eqn:F; [|discriminate]. intros H; inversion H; subst. rewrite E. split; auto.
+    intros k' [<-|Hk]; [lia | auto].
+Qed.
+
+Lemma kmin_none : forall s, kmin s = None <-> s = [].
+Proof.
+  intros [|[k0 v0] l]; simpl; [tauto|]. split; [|discriminate].
+  destruct (zmin_spec (keys l) k0) as (H1 & _ & _).
+  set (m := zmin k0 (keys l)) in *.
+  destruct (Z.eqb m k0) eqn:E; [discriminate|].
+  destruct H1 as [H1|H1]; [rewrite H1, Z.eqb_refl in E; discriminate|].
+  apply mfind_keys in H1. destruct (mfind m l); [discriminate | congruence].
+Qed.
+
+Lemma kmax_some : forall s k v, kmax s = Some (k, v) ->
+  mfind k s = Some v /\ forall k', In k' (keys s) -> k' <= k.
+Proof.
+  intros [|[k0 v0] l] k v; simpl; [discriminate|].
+  destruct (zmax_spec (keys l) k0) as (H1 & H2 & H3).
+  set (m := zmax k0 (keys l)) in *.
+  destruct (Z.eqb m k0) eqn:E.
+  - intros H; inversion H; subst. apply Z.eqb_eq in E. rewrite <- E at 1. rewrite Z.eqb_refl. split; auto.
+    intros k' [<-|Hk]; [lia | auto].
+  - destruct (mfind m l) eqn:F; [|discriminate]. intros H; inversion H; subst. rewrite E. split; auto.
+    intros k' [<-|Hk]; [lia | auto].
+Qed.
+
+Lemma kmax_none : forall s, kmax s = None <-> s = [].
+Proof.
+  intros [|[k0 v0] l]; simpl; [tauto|]. split; [|discriminate].
+  destruct (zmax_spec (keys l) k0) as (H1 & _ & _).
+  set (m := zmax k0 (keys l)) in *.
+  destruct (Z.eqb m k0) eqn:E; [discriminate|].
+  destruct H1 as [H1|H1]; [rewrite H1, Z.eqb_refl in E; discriminate|].
+  apply mfind_keys in H1. destruct (mfind m l); [discriminate | congruence].
+Qed.
+
+(** ** Keyed containers *)
+
+Definition wf (s : list item) : Prop := NoDup (keys s).
+
+Lemma wf_cons : forall k v s, wf s -> mfind k s = None -> wf ((k, v) :: s).
+Proof. intros k v s H F; unfold wf; simpl; constructor; auto. now apply mfind_none_keys. Qed.
+
+Lemma wf_cons_mdel : forall k v s, wf s -> wf ((k, v) :: mdel k s).
+Proof. intros k v s H; unfold wf; simpl; constructor; [apply not_in_keys_mdel | now apply NoDup_mdel]. Qed.
+
+Ltac kcase :=
+  repeat match goal with
+  | |- context [mhas ?k ?s] => let E := fresh "E" in destruct (mhas k s) eqn:E
+  | |- context [match mfind ?k ?s with _ => _ end] => let E := fresh "E" in destruct (mfind k s) eqn:E
+  | |- context [match kmin ?s with _ => _ end] => let E := fresh "E" in destruct (kmin s) as [[? ?]|] eqn:E
+  | |- context [match kmax ?s with _ => _ end] => let E := fresh "E" in destruct (kmax s) as [[? ?]|] eqn:E
+  | |- context [if ?b then _ else _] => is_var b; destruct b
+  end.
+
+(** no key is present twice, whatever the sequence *)
+Lemma kstep_wf : forall c s o, wf s -> wf (fst (kstep c s o)).
+Proof.
+  intros c s o H; destruct o; simpl; kcase; simpl; auto;
+    try (apply wf_cons; auto; now apply mhas_false);
+    try (apply wf_cons_mdel; auto);
+    try (apply NoDup_mdel; auto);
+    try constructor.
+Qed.
+
+Lemma krun_wf : forall c ops s, wf s -> wf (fst (krun c s ops)).
+Proof.
+  intros c ops; induction ops as [|o ops IH]; intros s H; simpl; auto.
+  destruct (kstep c s o) as [s1 r] eqn:E. specialize (IH s1).
+  destruct (krun c s1 ops) as [s2 rs]; simpl in *. apply IH.
+  change s1 with (fst (s1, r)); rewrite <- E; now apply kstep_wf.
+Qed.
+
+Theorem kstate_nodup : forall c ops, NoDup (keys (kstate c ops)).
+Proof. intros; apply krun_wf; constructor. Qed.
+
+Lemma krun_app : forall c ops1 ops2 s,
+  krun c s (ops1 ++ ops2) =
+  let (s1, r1) := krun c s ops1 in let (s2, r2) := krun c s1 ops2 in (s2, r1 ++ r2).
+Proof.
+  intros c ops1; induction ops1 as [|o ops1 IH]; intros ops2 s; simpl.
+  - destruct (krun c s ops2); auto.
+  - destruct (kstep c s o) as [s1 r]. rewrite IH.
+    destruct (krun c s1 ops1) as [s2 r2]. destruct (krun c s2 ops2); auto.
+Qed.
+
+(** *** update *)
+
+Definition upd_op (functor : bool) (k v : Z) (allow : bool) : kop :=
+  if functor then KUpdate k v allow else KUpsert k v allow.
+
+Theorem update_result_law : forall c s functor k v allow,
+  let s' := fst (kstep c s (upd_op functor k v allow)) in
+  let r := ko_res (snd (kstep c s (upd_op functor k v allow))) in
+  (r = KPair true true \/ r = KPair true false \/ r = KPair false false) /\
+  (r = KPair true true <-> mhas k s = false /\ allow = true) /\
+  (r = KPair true false <-> mhas k s = true) /\
+  (r = KPair false false <-> mhas k s = false /\ allow = false) /\
+  (r = KPair true true -> mfind k s' = Some v) /\                 (* it inserted: the key is now bound to v *)
+  (r = KPair true false -> mfind k s' = Some v) /\                (* it updated the existing item           *)
+  (r = KPair false false -> s' = s) /\                            (* nothing changed                         *)
+  (forall k', k' <> k -> mfind k' s' = mfind k' s).               (* no other key is touched                 *)
+Proof.
+  intros c s functor k v allow; unfold upd_op, mhas.
+  destruct functor; simpl; destruct (mfind k s) eqn:E; simpl;
+    try (destruct allow; simpl); rewrite ?Z.eqb_refl;
+    (repeat split; auto; try discriminate; try tauto; try (intros [? ?]; discriminate); try (intros ?; discriminate));
+    try (intros k' Hne; destruct (Z.eqb k' k) eqn:E'; [apply Z.eqb_eq in E'; congruence|]; auto using mfind_mdel_neq);
+    intuition discriminate.
+Qed.
+
+(** the update functor is called iff the operation succeeded; its new-item flag is the "inserted" result;
+    for an existing key it sees the stored value *)
+Theorem update_functor_law : forall c s k v allow,
+  let out := snd (kstep c s (KUpdate k v allow)) in
+  (ko_res out = KPair true true -> ko_calls out = [CUpd true k v v]) /\
+  (ko_res out = KPair true false -> exists old, mfind k s = Some old /\ ko_calls out = [CUpd false k old v]) /\
+  (ko_res out = KPair false false -> ko_calls out = []) /\
+  (forall functor, ko_calls (snd (kstep c s (upd_op functor k v allow))) = [] \/ functor = true).
+Proof.
+  intros c s k v allow; simpl.
+  repeat split.
+  - destruct (mfind k s); [discriminate|]. destruct allow; simpl; [auto | discriminate].
+  - destruct (mfind k s) as [old|]; [eauto|]. destruct allow; discriminate.
+  - destruct (mfind k s); [discriminate|]. destruct allow; simpl; [discriminate | auto].
+  - intros [|]; [auto|]. left. unfold upd_op; simpl. destruct (mfind k s); simpl; auto. destruct allow; auto.
+Qed.
+
+(** *** insert *)
+
+Theorem insert_functor_called_iff_inserted : forall c s k v,
+  let out := snd (kstep c s (KInsertF k v)) in
+  let s' := fst (kstep c s (KInsertF k v)) in
+  (ko_calls out = [CIns k v] <-> ko_res out = KBool true) /\
+  (ko_calls out = [] <-> ko_res out = KBool false) /\
+  (ko_res out = KBool true <-> mhas k s = false) /\
+  (ko_res out = KBool true -> mfind k s' = Some v) /\
+  (ko_res out = KBool false -> s' = s) /\
+  ko_calls (snd (kstep c s (KInsert k v))) = [] /\
+  ko_res (snd (kstep c s (KInsert k v))) = ko_res out /\ fst (kstep c s (KInsert k v)) = s'.
+Proof.
+  intros c s k v; simpl. destruct (mhas k s); simpl; rewrite ?Z.eqb_refl;
+    repeat split; auto; try discriminate; intros; discriminate.
+Qed.
+
+(** *** erase *)
+
+Theorem erase_functor_called_iff_erased : forall c s k,
+  let out := snd (kstep c s (KEraseF k)) in
+  let s' := fst (kstep c s (KEraseF k)) in
+  (ko_res out = KBool true <-> mhas k s = true) /\
+  (ko_res out = KBool true -> exists v, mfind k s = Some v /\ ko_calls out = [CErase k v]) /\
+  (ko_res out = KBool false -> ko_calls out = [] /\ s' = s) /\
+  (ko_res out = KBool true \/ ko_res out = KBool false) /\
+  mfind k s' = None /\
+  (forall k', k' <> k -> mfind k' s' = mfind k' s) /\
+  ko_res (snd (kstep c s (KErase k))) = ko_res out /\ fst (kstep c s (KErase k)) = s' /\
+  ko_calls (snd (kstep c s (KErase k))) = [].
+Proof.
+  intros c s k; simpl; unfold mhas. destruct (mfind k s) as [v|] eqn:E; simpl.
+  - repeat split; auto; try discriminate; eauto using mfind_mdel_eq, mfind_mdel_neq.
+  - repeat split; auto; try discriminate; intros; try discriminate.
+Qed.
+
+(** *** find / contains / get *)
+
+Theorem find_functor_called_iff_found : forall c s k,
+  let out := snd (kstep c s (KFindF k)) in
+  fst (kstep c s (KFindF k)) = s /\
+  (ko_res out = KBool true <-> mhas k s = true) /\
+  (ko_res out = KBool true -> exists v, mfind k s = Some v /\ ko_calls out = [CFind k v]) /\
+  (ko_res out = KBool false -> ko_calls out = []) /\
+  ko_res (snd (kstep c s (KContains k))) = ko_res out /\
+  ko_res (snd (kstep c s (KGet k))) = KItem (match mfind k s with Some v => Some (k, v) | None => None end).
+Proof.
+  intros c s k; simpl; unfold mhas. destruct (mfind k s) as [v|] eqn:E; simpl;
+    repeat split; auto; try discriminate; eauto; intros; discriminate.
+Qed.
+
+(** *** size, empty, clear *)
+
+Theorem size_is_cardinality : forall c ops l,
+  kc_counted c = true ->
+  NoDup l -> (forall k, In k l <-> mfind k (kstate c ops) <> None) ->
+  ko_res (snd (kstep c (kstate c ops) KSize)) = KNat (length l).
+Proof.
+  intros c ops l Hc Hl Hin; simpl; rewrite Hc. f_equal.
+  assert (Hp : Permutation l (keys (kstate c ops))).
+  { apply NoDup_Permutation; auto using kstate_nodup. intros k; rewrite Hin; apply mfind_keys. }
+  rewrite (Permutation_length Hp). unfold keys; now rewrite map_length.
+Qed.
+
+Theorem size_uncounted : forall c s, kc_counted c = false -> ko_res (snd (kstep c s KSize)) = KNat 0.
+Proof. intros c s H; simpl; now rewrite H. Qed.
+
+Theorem empty_iff_size_zero : forall c s,
+  (kc_counted c = true ->
+     (ko_res (snd (kstep c s KEmpty)) = KBool true <-> ko_res (snd (kstep c s KSize)) = KNat 0)) /\
+  (kc_counted c = true \/ kc_empty_by_size c = false ->
+     (ko_res (snd (kstep c s KEmpty)) = KBool true <-> forall k, mfind k s = None)) /\
+  (kc_counted c = false -> kc_empty_by_size c = true -> ko_res (snd (kstep c s KEmpty)) = KBool true).
+Proof.
+  intros c s; simpl. split; [|split].
+  - intros ->; rewrite andb_false_r. destruct s; simpl; split; auto; discriminate.
+  - intros H. assert (E : kc_empty_by_size c && negb (kc_counted c) = false) by (destruct H as [-> | ->]; [apply andb_false_r | auto]).
+    rewrite E. destruct s as [|[k v] s]; simpl; split; auto; try discriminate.
+    intros H'; specialize (H' k); simpl in H'; rewrite Z.eqb_refl in H'; discriminate.
+  - intros -> ->; auto.
+Qed.
+
+Theorem clear_empties : forall c s,
+  let s' := fst (kstep c s KClear) in
+  s' = [] /\
+  (forall k, ko_res (snd (kstep c s' (KContains k))) = KBool false) /\
+  ko_res (snd (kstep c s' KSize)) = KNat 0 /\
+  ko_res (snd (kstep c s' KEmpty)) = KBool true /\
+  ko_res (snd (kstep c s' KIter)) = KList [] /\
+  ko_res (snd (kstep c s' KExtractMin)) = KItem None /\
+  (forall k, ko_res (snd (kstep c s' (KExtract k))) = KItem None).
+Proof.
+  intros c s; simpl. repeat split; auto.
+  - destruct (kc_counted c); auto.
+  - destruct (kc_empty_by_size c && negb (kc_counted c)); auto.
+Qed.
+
+(** *** extract_min / extract_max *)
+
+Theorem extract_min_is_least : forall c s,
+  let out := snd (kstep c s KExtractMin) in
+  let s' := fst (kstep c s KExtractMin) in
+  (ko_res out = KItem None <-> s = []) /\
+  (forall k v, ko_res out = KItem (Some (k, v)) ->
+     mfind k s = Some v /\ (forall k', mfind k' s <> None -> k <= k') /\
+     mfind k s' = None /\ (forall k', k' <> k -> mfind k' s' = mfind k' s)).
+Proof.
+  intros c s; simpl. destruct (kmin s) as [[k0 v0]|] eqn:E; simpl.
+  - split.
+    + split; [discriminate|]. intros ->; discriminate.
+    + intros k v H; inversion H; subst. destruct (kmin_some _ _ _ E) as [F L].
+      repeat split; auto using mfind_mdel_eq, mfind_mdel_neq. intros k' Hk; apply L; now apply mfind_keys.
+  - split; [split; auto; intros _; now apply kmin_none | intros; discriminate].
+Qed.
+
+Theorem extract_max_is_greatest : forall c s,
+  let out := snd (kstep c s KExtractMax) in
+  let s' := fst (kstep c s KExtractMax) in
+  (ko_res out = KItem None <-> s = []) /\
+  (forall k v, ko_res out = KItem (Some (k, v)) ->
+     mfind k s = Some v /\ (forall k', mfind k' s <> None -> k' <= k) /\
+     mfind k s' = None /\ (forall k', k' <> k -> mfind k' s' = mfind k' s)).
+Proof.
+  intros c s; simpl. destruct (kmax s) as [[k0 v0]|] eqn:E; simpl.
+  - split.
+    + split; [discriminate|]. intros ->; discriminate.
+    + intros k v H; inversion H; subst. destruct (kmax_some _ _ _ E) as [F L].
+      repeat split; auto using mfind_mdel_eq, mfind_mdel_neq. intros k' Hk; apply L; now apply mfind_keys.
+  - split; [split; auto; intros _; now apply kmax_none | intros; discriminate].
+Qed.
+
+(** the order of repeated extract_min: strictly increasing keys *)
+Theorem extract_min_order : forall c s k1 v1 k2 v2, wf s ->
+  ko_res (snd (kstep c s KExtractMin)) = KItem (Some (k1, v1)) ->
+  ko_res (snd (kstep c (fst (kstep c s KExtractMin)) KExtractMin)) = KItem (Some (k2, v2)) ->
+  k1 < k2.
+Proof.
+  intros c s k1 v1 k2 v2 Hwf H1 H2.
+  destruct (extract_min_is_least c s) as [_ A]. destruct (A _ _ H1) as (F1 & L1 & G1 & O1).
+  destruct (extract_min_is_least c (fst (kstep c s KExtractMin))) as [_ B]. destruct (B _ _ H2) as (F2 & _).
+  assert (k1 <> k2) by (intros ->; congruence).
+  assert (k1 <= k2) by (apply L1; rewrite <- O1 by auto; congruence). lia.
+Qed.
